@@ -1461,6 +1461,7 @@ func ifaceMeasureIter(i *Iter) int {
 //@   assigns i.off, i.addNext, i.cur, i.t
 //@   ensures inv: iterOK(i)
 //@   ensures adv: i.off >= old(i.off) && i.off+i.addNext >= old(i.off)+old(i.addNext)
+//@   ensures unchanged: implies(old(i.t) != TagRoot && specTagType(old(i.t)) != TypeNone, i.off == old(i.off) && i.addNext == old(i.addNext) && i.t == old(i.t) && i.cur == old(i.cur))
 //@   decreases rec ifaceMeasureIter(i)
 //@   invariant 0 iterOK(i) && i.tape.Strings != nil && i.off >= old(i.off) && i.off+i.addNext >= old(i.off)+old(i.addNext) && len(i.tape.Tape) == len(old(i.tape.Tape))
 //@   decreases 0 maxInt(0, len(i.tape.Tape)-i.off-i.addNext)
@@ -1474,7 +1475,6 @@ func ifaceMeasureIter(i *Iter) int {
 //@   decreases rec 4*maxInt(0, len(a.tape.Tape)-a.off) + 1
 //@   invariant 0 iterOK(&i) && i.tape.Strings != nil && i.off >= a.off && len(i.tape.Tape) == len(a.tape.Tape)
 //@   decreases 0 maxInt(0, len(i.tape.Tape)-i.off-i.addNext)
-//@   invariant 0 [C12,C02] level: i.addNext == stepAddNext(i.t, i.cur, i.off)
 //@   safe
 
 //@ func (*Object).Map
